@@ -2,7 +2,7 @@
    Statements only; every proof is `exact <lemma from Proofs/>`. *)
 From Coq Require Import ZArith List QArith Qcanon.
 From Batchie Require Import Lib.Sexp Lib.Num Model.Chunks Model.DistMat Model.Mse
-  Proofs.C07Chunks Proofs.C07DistMat Proofs.C07Mse Proofs.C07Src Generated.SrcArith
+  Proofs.C07Chunks Proofs.C07DistMat Proofs.C07Mse Proofs.C07Src Generated.SrcArithC07
   Lib.PyRt Generated.SrcChunks Proofs.C07Source Generated.SrcDistMat Generated.SrcMse Proofs.C07SourceMat
   Proofs.C07SourceMse Proofs.C07SourcePipeline.
 Import ListNotations.
